@@ -48,6 +48,9 @@ pub enum Alt {
     /// coefficients and across the weighted sum: b[pos] -= 2J, b[pos+1] += J, J = t(X - X^2)
     /// (degree >= 3 circuits; the degree-0 coefficients stay boolean)
     ExtJunkBits { pos: u8, t: u8 },
+    /// bit `k` flipped and bit `pos` of the same limb absorbs the difference as an arbitrary
+    /// field element: b[pos] += 2^(k-pos) * (b[k] - b'[k]); every other bit stays boolean
+    Absorb { pos: u8, k: u8 },
     /// one bit flipped (breaks the recomposition identity: must be rejected)
     Flip { pos: u8 },
     /// coefficient j decreased by t, coefficient i increased by t * e_j / e_i (not a base value)
@@ -68,7 +71,7 @@ pub struct Case {
 
 pub const RULE: &str = "decompose_to_bits (full and shortened widths) and decompose_ext_to_base_coeffs (ALU chain, \
 recompose table, recompose/coeff table) of a generated public value x over 7 field configurations x an alternative \
-hint output: canonical (control), bits of limb+p, non-boolean 'bits' with the same weighted sum, bits carrying extension-field junk that cancels within each bit and across the sum, a flipped bit, \
+hint output: canonical (control), bits of limb+p, non-boolean 'bits' with the same weighted sum, bits carrying extension-field junk that cancels within each bit and across the sum, one bit flipped with another bit of the limb (often the lowest) absorbing the difference as a field element, a flipped bit, \
 coefficient mass moved between two positions (non-base coefficient, same recomposition), a bumped coefficient; the \
 alternative is propagated through the op list and the forged traces are proven and verified. Oracle: accepted => \
 the hint outputs are the canonical decomposition. Non-trivial = an alternative that differs from the canonical \
@@ -212,6 +215,32 @@ fn check<C: Pv>(c: &Case) -> Report {
             alt[k] = alt[k] - j - j;
             alt[k + 1] = alt[k + 1] + j;
             class = "bits:cancelling-extension-junk".into();
+        }
+        (What::Bits { .. }, Alt::Absorb { pos, k }) => {
+            if nbits < 2 {
+                return Report::discard("needs two bits");
+            }
+            // both positions inside one limb
+            let limb = (*pos as usize % nbits) / fb;
+            let lo = limb * fb;
+            let hi = (lo + fb).min(nbits);
+            if hi - lo < 2 {
+                return Report::discard("limb has a single bit");
+            }
+            let p_abs = lo + (*pos as usize % (hi - lo));
+            let mut k_abs = lo + (*k as usize % (hi - lo));
+            if k_abs == p_abs {
+                k_abs = if k_abs + 1 < hi { k_abs + 1 } else { lo };
+            }
+            let old = alt[k_abs];
+            let new = C::EF::ONE - old;
+            alt[k_abs] = new;
+            // weight ratio 2^(k - pos) in the field (pos may be above k)
+            let two = C::EF::TWO;
+            let pow = |e: usize| (0..e).fold(C::EF::ONE, |a, _| a * two);
+            let ratio = pow(k_abs - lo) * pow(p_abs - lo).inverse();
+            alt[p_abs] = alt[p_abs] + ratio * (old - new);
+            class = if p_abs == lo { "bits:absorbed-in-lowest-bit".into() } else { "bits:absorbed-in-one-bit".into() };
         }
         (What::Bits { .. }, Alt::Flip { pos }) => {
             let k = *pos as usize % nbits;
@@ -400,6 +429,7 @@ fn strategy() -> impl Strategy<Value = Case> {
             3 => any::<u8>().prop_map(|pos| Alt::NonBool { pos }),
             3 => any::<u8>().prop_map(|pos| Alt::NonBoolDecoupled { pos }),
             3 => (any::<u8>(), any::<u8>()).prop_map(|(pos, t)| Alt::ExtJunkBits { pos, t }),
+            3 => (prop_oneof![2 => Just(0u8), 1 => any::<u8>()], any::<u8>()).prop_map(|(pos, k)| Alt::Absorb { pos, k }),
             1 => any::<u8>().prop_map(|pos| Alt::Flip { pos }),
         ],
     )
